@@ -443,6 +443,71 @@ def run (S : Setting) (w : World) : List Ev → Option World
     | none => none
     | some w' => run S w' es
 
+/-! ### the configuration `tlsConfig` builds, and session resumption (crypto/tls)
+
+`crypto/tls` (trusted) decides from the configuration whether the callback `VerifyPeerCertificate` is ever
+called: not when a session is **resumed** (the ticket stands for the certificates of the earlier
+connection), and not when a client may come without a certificate.  So the guarantee "the verifier ran on
+this handshake's nonce" rests on three fields of the per-client configuration. -/
+
+/-- the fields of `tls.Config` the handshake's guarantees rest on -/
+structure TlsCfg where
+  /-- `InsecureSkipVerify`: crypto/tls's own chain verification is off (the certificates are self-signed) -/
+  insecureSkipVerify : Bool
+  /-- `ClientAuth = RequireAnyClientCert` -/
+  requireClientCert : Bool
+  /-- `VerifyPeerCertificate != nil` -/
+  hasVerifier : Bool
+  /-- `SessionTicketsDisabled` -/
+  ticketsDisabled : Bool
+  deriving DecidableEq, Repr
+
+/-- `tlsConfig` (tls.go:450-475): what both roles start from -/
+def tlsConfig : TlsCfg := ⟨true, false, false, true⟩
+
+/-- `cloneTLSClientConfig` (tls.go:214-240): a field-by-field copy of a fixed list of fields.
+`VerifyPeerCertificate` is not in the list, `ClientAuth` and `SessionTicketsDisabled` are. -/
+def cloneCfg (c : TlsCfg) : TlsCfg := { c with hasVerifier := false }
+
+/-- the configuration of one accepted connection: `GetConfigForClient` (tls.go:266-284) clones the
+listener's configuration — whose `ClientAuth` was set to `RequireAnyClientCert` (tls.go:289) — and sets the
+verifier made for this client -/
+def perClientCfg : TlsCfg := { cloneCfg { tlsConfig with requireClientCert := true } with hasVerifier := true }
+
+/-- the dialler's configuration: `tlsConfig` plus the verifier (tls.go:484-485); it has no session cache -/
+def dialCfg : TlsCfg := { tlsConfig with hasVerifier := true }
+
+/-- what a client hello asks for: a full handshake presenting `raw`, or the resumption of the session of
+the listener's earlier connection `i` — if the listener does not go along, the handshake is a full one
+with the certificates `fallback` -/
+inductive Hello
+  | full (raw : List Cert)
+  | resume (i : Nat) (fallback : List Cert)
+
+/-- crypto/tls, server side, under the configuration `cfg`, for the connection whose verifier was made
+with `nonce`; `sessions` = the peer certificates of the listener's earlier accepted connections (what
+their tickets stand for).  Result: the peer certificates of the established connection, `none` = no
+connection. -/
+def acceptFull (cfg : TlsCfg) (s : Suite) (nonce : Nonce) (raw : List Cert) : Option (List Cert) :=
+  if raw.isEmpty then (if cfg.requireClientCert then none else some [])
+  else if cfg.hasVerifier then (if (verifyPeer s none nonce raw).isNone then some raw else none)
+  else some raw
+
+def acceptHello (cfg : TlsCfg) (s : Suite) (nonce : Nonce) (sessions : List (List Cert)) : Hello → Option (List Cert)
+  | .resume i fallback =>
+    match (if cfg.ticketsDisabled then none else sessions[i]?) with
+    | some raw => some raw          -- resumed: `VerifyPeerCertificate` is not called
+    | none => acceptFull cfg s nonce fallback
+  | .full raw => acceptFull cfg s nonce raw
+
+/-- a listener's life: connection `i` gets the nonce `hon i`; the result lists, per connection, what was
+established -/
+def listen (cfg : TlsCfg) (s : Suite) : Nat → List (List Cert) → List Hello → List (Option (List Cert))
+  | _, _, [] => []
+  | i, sessions, h :: hs =>
+    let r := acceptHello cfg s (.hon i) sessions h
+    r :: listen cfg s (i + 1) (sessions ++ r.toList) hs
+
 /-! ### line-protocol front end -/
 namespace Drv
 
@@ -829,6 +894,36 @@ def step (s : State) (toks : List String) : State × String :=
       let key ← (← get m "key") |> NameBytes.Text.parseHex
       if key.length ≠ len then none
       pure ("name=" ++ NameBytes.Text.showHex (NameBytes.pubToCN (NameBytes.Text.anyGroup len) key))
+    (s, r.getD "bad-op")
+  | "resume" :: rest =>
+    -- `resume suite=… tlsv=… rounds=<2..5> priv=<keep|drop>`: a client operated by a, with a session cache, connects
+    -- `rounds` times to the honest listener; from the second connection on it offers the ticket of the previous one.
+    -- `priv=drop`: after the first connection it cannot make a proof any more.  Answer, per connection:
+    -- `<full|resumed|fail>:<label of the key attached to the dispatched message|->`
+    let r : Option String := do
+      let m ← kv rest
+      if m.length ≠ 4 then none
+      let suite ← (← get m "suite") |> suiteOf
+      let tlsv ← get m "tlsv"
+      if tlsv ≠ "12" ∧ tlsv ≠ "13" then none
+      let rounds ← (← get m "rounds").toNat?
+      if rounds < 2 ∨ rounds > 5 then none
+      if (← get m "rounds").length ≠ 1 then none
+      let drop ← (match (← get m "priv") with | "keep" => some false | "drop" => some true | _ => none)
+      let certAt : Nat → List Cert := fun i =>
+        (certFor .new 2 12 (.hon i)).toList.map fun c => if drop ∧ i > 0 then { c with ext := none } else c
+      let hellos := (List.range rounds).map fun i => if i = 0 then Hello.full (certAt 0) else Hello.resume (i - 1) (certAt i)
+      let outs := listen perClientCfg suite 0 [] hellos
+      let shown := (List.range rounds).map fun i =>
+        match outs.getD i none with
+        | none => "fail:-"
+        | some raw =>
+          let kind := if (verifyPeer suite none (.hon i) raw).isNone then "full" else "resumed"
+          let disp := match acceptConn suite (.hon i) (fun _ => true) false
+              (if kind = "full" then raw else (certFor .new 2 12 (.hon i)).toList) (.identity ⟨2, 0⟩) [7] with
+            | (idn, _) :: _ => labelOf idn.pub | [] => "-"
+          kind ++ ":" ++ disp
+      pure (" ".intercalate shown)
     (s, r.getD "bad-op")
   | _ => (s, "bad-op")
 
